@@ -226,22 +226,33 @@ func RootKeyOf(path string) string {
 	return segs[0]
 }
 
-// SerialOrder checks that in the event log every event under root key k_i precedes every event
-// under k_{i+1} (keys in document order) and that the data lists the root keys in that order.
-// With skipAbandoned, fulfilments of promises the executor never received are left out.
-func SerialOrder(c *Case, o *Observed, skipAbandoned bool) string {
+// SerialOrder checks the C11 property on the event log: every event under root key k_i precedes
+// every event under k_{i+1} (keys in document order), no resolver under k_j is called while a
+// promise under an earlier root key is still outstanding, and the data lists the root keys in
+// document order. With excuseAbandoned, promises the executor never received are left out of
+// both checks when their root field has an error beneath it (finding F-11a: a failing sibling made
+// the executor give up on them).
+func SerialOrder(c *Case, o *Observed, excuseAbandoned bool) string {
 	rank := map[string]int{}
 	for i, f := range c.Shape.Fields {
 		rank[strconv.Quote(f.Key())] = i
 	}
-	abandoned := map[string]bool{}
-	for _, p := range o.Abandoned {
-		abandoned[p] = true
+	failedRoot := map[string]bool{}
+	for _, e := range o.Errors {
+		failedRoot[RootKeyOf(e.Path)] = true
+	}
+	excused := map[string]bool{}
+	if excuseAbandoned {
+		for _, p := range o.Abandoned {
+			if failedRoot[RootKeyOf(p)] {
+				excused[p] = true
+			}
+		}
 	}
 	last := -1
 	lastEvent := ""
 	for _, e := range o.Events {
-		if skipAbandoned && e.Kind == "fulfil" && abandoned[e.Path] {
+		if e.Kind == "fulfil" && excused[e.Path] {
 			continue
 		}
 		r, ok := rank[RootKeyOf(e.Path)]
@@ -254,6 +265,14 @@ func SerialOrder(c *Case, o *Observed, skipAbandoned bool) string {
 		if r > last {
 			last = r
 			lastEvent = e.Kind + e.Path
+		}
+		for _, p := range e.Pending {
+			if excused[p] {
+				continue
+			}
+			if pr, ok := rank[RootKeyOf(p)]; ok && pr < r {
+				return fmt.Sprintf("resolver %s (root field #%d) is called while promise %s of root field #%d is still outstanding", e.Path, r, p, pr)
+			}
 		}
 	}
 	if kvs, ok := o.tree.([]kv); ok {
